@@ -1,5 +1,6 @@
 import GraafVerif.Driver.H02
 import GraafVerif.Model.Pred
+import GraafVerif.Model.PredFast
 import GraafVerif.Spec.Pred
 /-!
 Driver handlers for property C12 (ops of `harness/src/ops/c12.rs`): `pred_unary`, `pred_rel`.
@@ -31,7 +32,15 @@ def schedReverse (workers order : Nat) : List Nat :=
 
 def mkInst (t : Nat) (d : GDesc) : Option Inst :=
   match d.repr with
-  | "al" => (buildAL d).map fun g =>
+  | "al" =>
+    if d.order > 128 then
+      -- large orders: the Array / bitset twins, each PROVED equal to the list model
+      -- (`Proof/PredFast.lean`: buildRowsFast_eq, coreFast_eq, isSemicompleteFast_eq, isTournamentFast_eq)
+      (Pred.AL.buildRowsFast d.order d.arcs).map fun g =>
+        ⟨Pred.AL.coreFast g, obsAL g, some (Pred.AL.isComplete g), some (Pred.AL.isSemicompleteFast g t),
+         some (Pred.AL.isTournamentFast g), some (Pred.AL.isSimple g)⟩
+    else
+    (buildAL d).map fun g =>
     let f := Pred.AL.isSemicomplete g t
     -- the labelled-transition model must agree under both schedules (small orders only: cost)
     let lts :=
@@ -126,7 +135,8 @@ on `0..n` (`u < v`: `u → v` when `u + v` is even, else `v → u`), optionally 
 joined and another pair doubled (size stays `n(n-1)/2`).  Same rule as `c12.rs: tour_arcs`. -/
 def tourArcs (n : Nat) (missing : Option (Nat × Nat)) : List (Nat × Nat) :=
   let dbl := missing.map (fun p => if min p.1 p.2 ≥ 2 then (0, 1) else (n - 2, n - 1))
-  (List.range n).flatMap (fun u => (List.range' (u + 1) (n - (u + 1))).flatMap (fun v =>
+  -- pairs in descending order (v = n-1..1, u = v-1..0), as `c12.rs: tour_arcs`
+  (List.range' 1 (n - 1)).reverse.flatMap (fun v => (List.range v).reverse.flatMap (fun u =>
     if missing == some (u, v) then []
     else if dbl == some (u, v) then [(u, v), (v, u)]
     else if (u + v) % 2 == 0 then [(u, v)] else [(v, u)]))
